@@ -437,10 +437,34 @@ Proof.
   destruct parked; [exact H1|]. apply (InvCh_ext s1); auto.
 Qed.
 
+Lemma acc_ret_chain s c x e : InvCh s -> InvCh (acc_ret s c x e).
+Proof.
+  intros H. unfold acc_ret.
+  pose proof (release_call_by_chain (setc s c (with_cpc x (CRel e))) (cref x) (Some c)) as G.
+  destruct (release_call_by (setc s c (with_cpc x (CRel e))) (cref x) (Some c)) as [s1 parked]. cbn [fst] in G.
+  assert (H1 : InvCh s1) by (apply G; apply (InvCh_ext s); auto).
+  destruct parked; [exact H1|]. apply (InvCh_ext s1); auto.
+Qed.
+
+Lemma acc_s1_chain s c x : InvCh s -> InvCh (acc_s1 s c x).
+Proof.
+  intros H. unfold acc_s1. destruct (negb (Nat.eqb (ac_err x) 0)); [now apply acc_ret_chain|].
+  destruct (ac_res x); [apply (InvCh_ext s); auto|]. destruct (ccanc x); [now apply acc_ret_chain | apply (InvCh_ext s); auto].
+Qed.
+
+Lemma cb_return_chain fx s c res : InvCh s -> InvCh (cb_return fx s c res).
+Proof.
+  intros H. unfold cb_return. destruct (nth_error (conss s) c) as [x|]; [|exact H].
+  destruct (ck x); try exact H. destruct (cpcv x); try exact H.
+  destruct (ccanc x); [now apply acc_ret_chain|].
+  match goal with |- InvCh (if ?b then _ else _) => destruct b end; [now apply acc_ret_chain | apply (InvCh_ext s); auto].
+Qed.
+
 Lemma cons_step_chain s c : InvCh s -> InvCh (cons_step s c).
 Proof.
   intros H. unfold cons_step. destruct (nth_error (conss s) c) as [x|]; [|exact H].
-  destruct (ck x), (cpcv x); try exact H.
+  destruct (ck x), (cpcv x); try exact H; try (now apply acc_s1_chain).
+  3:{ destruct (negb (Nat.eqb (ac_nonce x) (ac_snap x))); [now apply acc_s1_chain|]. destruct (ccanc x); [now apply acc_ret_chain | exact H]. }
   - destruct (cw_res x) as [[v e]|].
     + destruct (Nat.eqb e 0); [apply (InvCh_ext s); auto | now apply cons_fail_chain].
     + destruct (ccanc x); [now apply cons_fail_chain | exact H].
@@ -460,7 +484,7 @@ Proof.
   intros H. destruct e; cbn [step].
   - now apply set_context_chain.
   - now apply add_ref_chain.
-  - now apply release_call_by_chain.
+  - destruct (rkind (nth r (refs s) ref0)); try exact H; now apply release_call_by_chain.
   - now apply release_section_chain.
   - destruct (nth_error (gs s) g); [now apply released_section_chain | exact H].
   - now apply async_section_chain.
@@ -471,6 +495,7 @@ Proof.
   - now apply cons_step_chain.
   - destruct (nth_error (conss s) c); [apply (InvCh_ext s); auto | exact H].
   - now apply fire_section_chain.
+  - now apply cb_return_chain.
 Qed.
 
 Lemma init_chain k : InvCh (init k).
@@ -495,7 +520,7 @@ Proof. intros s Hx Ha. destruct (run_chain k es) as [HI _]. fold s in HI. destru
 
 (* the pinned code (before the D10 repair): a cancelled goroutine that still waits for its predecessor closes its done
    channel at once, and the next goroutine's resolver call overlaps the first *)
-Definition pinned_d10 : fixes := {| fx_wait := false; fx_nilcb := true |}.
+Definition pinned_d10 : fixes := {| fx_wait := false; fx_nilcb := true; fx_accnonce := true |}.
 Definition d10_witness : list ev :=
   [ESetCtx 1; EAddRef 1; EProceed 0 true; ESetCtx 2; EProceed 1 false; ESetCtx 3; EProceed 1 false; EProceed 2 true].
 Lemma d10_refuted : cnt in_resolver (gs (run pinned_d10 (init false) d10_witness)) = 2.
